@@ -255,6 +255,11 @@ class AliasMixin:
         """Return the name of the underlying model variable associated with `alias`."""
         return self.aliases.get(alias, alias)
 
+    def add_variable(self, name: str, *args: Any, **kwargs: Any) -> None:
+        # An alias stands for its underlying variable here too (which, if it
+        # already exists, is an error) rather than becoming a variable itself
+        super().add_variable(self._resolve_alias(name), *args, **kwargs)
+
     def __getattr__(self, name: str) -> Any:
         return super().__getattr__(self._resolve_alias(name))
 
